@@ -170,6 +170,7 @@ class Link:
         self.pos = 0
         self.decider = decider
         self.budget = budget
+        self.budget_per_fault = 0
         self.calls = 0
         self.taken = []  # decisions actually taken (the schedule)
         self.log = []  # (op, want, result kind, n)
@@ -197,6 +198,7 @@ class Link:
     def _fire(self, kind):
         self.fired[kind] = self.fired.get(kind, 0) + 1
         self.fault_in_call += 1
+        self.budget += self.budget_per_fault
 
     def take(self, k):
         p = self.pos
